@@ -453,7 +453,13 @@ class C10(DecProp):
             if py.get('p.consumed') != str(len(body) // 2):
                 out.append(F('prop', 'consumed != scope', py.get('p.consumed'), str(len(body) // 2)))
             if mo.get('i.dec') == 'err':
-                out.append(F('corr', 'python accepts, model rejects', py.get('p.dec'), 'err'))
+                # the model (proved exact) rejects: is the input the canonical encoding of what python decoded?
+                q = model_query(show(['val', case[1], parse(py['p.dec'])])) if py.get('p.dec') not in (None, 'err') else {}
+                if q.get('s.bytes') != body:
+                    out.append(F('prop', 'accepted a string that is not the SSZ encoding of the decoded value',
+                                 py.get('p.dec'), 'canonical encoding: %s' % q.get('s.bytes')))
+                else:
+                    out.append(F('corr', 'python accepts, model rejects', py.get('p.dec'), 'err'))
         else:
             if mo.get('i.dec') != 'err' and mo.get('s.bytes') == body and mo.get('wt') == '1':
                 out.append(F('prop', 'valid encoding rejected', 'err', mo.get('i.dec')))
@@ -574,7 +580,8 @@ class C13(Prop):
             else:
                 ow, b = '-', r.choice([-1, -2, -(1 << (8 * w)), 1 << (8 * w), (1 << (8 * w)) + 1, -r.randint(1, 300)])
             if op in ('lshift', 'rshift'):
-                b = r.choice([0, 1, 7, 8, 8 * w - 1, 8 * w, 8 * w + 1, 300]) if kindo != 'intbad' else b
+                # shift amounts are counts: keep them small (CPython cannot even represent x << 2**256)
+                b = r.choice([0, 1, 7, 8, 8 * w - 1, 8 * w, 8 * w + 1, 300]) if kindo != 'intbad' else r.choice([-1, -2, -300])
                 if ow != '-' and b >= (1 << (8 * ow)):
                     b = 8 * ow - 1
             if op == 'pow':
@@ -585,6 +592,9 @@ class C13(Prop):
                 if op == 'pow' and ow == '-':
                     y = (ow, r.choice([0, 1, 2, 3, -2, -1, 10]))
                     x = (w, r.choice([0, 1, 2, 3, 8]))
+                if op in ('lshift', 'rshift'):
+                    # the right operand is the (small) count also after swapping
+                    x = (w, r.choice([0, 1, 7, 8, 8 * w - 1, 8 * w, 8 * w + 1, 200]))
                 x, y = y, x
             out.append(show(['uop', op, x[0], x[1], y[0], y[1]]))
             if r.random() < 0.1:
